@@ -462,7 +462,7 @@ def run(ctx):
                 else f'accepted {s!r} but a browser lands on {v[1]!r}')
         ctx.violation(key, what, {'next': s, 'model_verdict': list(v), 'configured_hosts': sorted(allowed), 'python_netloc': _netloc(s)})
 
-    N = ctx.pick(100_000, 625_000)
+    N = ctx.pick(100_000, 312_500)
     for i, rng in ctx.cases(N, 'grammar'):
         s, kind = gen(rng, allowed, domain)
         evaluate(s, kind)
